@@ -1017,8 +1017,9 @@ class Interp:
             return (UNIT, done)
         # `loop`/`while`: not summarised; havoc everything assigned inside
         self.note(fr, "unmodelled loop (%s)" % e.get("src"), e)
+        entry_env = env
         env = dict(env)
-        for lid in self.assigned_locals(e["body"]):
+        for lid in sorted(self.assigned_locals(e["body"]), key=str):
             if lid in env:
                 env[lid] = self.fresh("loop")
         # interpret the body once on the havocked state: its calls, effects and panic sites are still facts
@@ -1026,7 +1027,13 @@ class Interp:
         saved = fr.rets
         fr.rets = []
         try:
-            self.block(e["body"], dict(env), fr)
+            once = self.block(e["body"], dict(env), fr)
+            # the state transformer of one iteration, for rules that reason about the loop: for every carried local its value
+            # on entry, its arbitrary-iteration symbol, and its value after one pass of the body (None if the body does not fall through)
+            ids = [lid for lid in sorted(self.assigned_locals(e["body"]), key=str) if lid in entry_env]
+            fr.out.effects.append((entry_env["$pc"], "while_state",
+                                   (tuple(entry_env[i] for i in ids), tuple(env[i] for i in ids), tuple((once[1].get(i, env[i]) if once is not None else None) for i in ids)),
+                                   {"sp": e.get("sp"), "fn": fr.path, "ids": tuple(ids), "pc_after": tuple(once[1]["$pc"]) if once is not None else None}))
         finally:
             inner_rets = fr.rets
             fr.rets = saved
